@@ -975,6 +975,29 @@ func closeTokenRule(p *Prog, r *Report) {
 						}
 					}
 				}
+				// 'flag = flag || x': a merge of the constant true with a value computed only while the flag was false
+				if ph, ok := st.Val.(*ssa.Phi); ok && !raises {
+					all := true
+					for i, e := range ph.Edges {
+						if c, isC := e.(*ssa.Const); isC && c.Value != nil && c.Value.ExactString() == "true" {
+							continue
+						}
+						okEdge := false
+						pr := ph.Block().Preds[i]
+						for _, g := range guardsOf(pr) {
+							if strings.Contains(g.Atom, "connectionClose") && !g.Pol {
+								okEdge = true
+							}
+						}
+						if iff, isIf := pr.Instrs[len(pr.Instrs)-1].(*ssa.If); isIf && hasAtomContaining(condAtoms(iff.Cond), "connectionClose") {
+							okEdge = true
+						}
+						if !okEdge {
+							all = false
+						}
+					}
+					raises = all
+				}
 				r.Check("R4", fmt.Sprintf("%s: a store to the close flag while the head is parsed can only raise it", funcName(fn)), raises, p.Pos(st.Pos()),
 					"the flag is assigned a value that may be false although an earlier header line (Connection: close, or a framing rule) may already have raised it: 'Connection: close' followed by 'Connection: foo' keeps the connection alive")
 			}
